@@ -32,10 +32,11 @@ TEXT = {'lit_a': 'a', 'lit_space': ' ', 'lit_unicode': 'é中', 'lit_percent': '
         'f_percent': '{query}', 'f_zero': '{zero}', 'f_empty': '{empty}',
         'f_local': '{name}', 'f_attr': '{person.name}', 'f_index': '{items[1]}', 'f_call': '{len(items)}',
         'f_missing': '{nope}', 'f_raises': '{a // 0}',
-        'f_neq': '{a != 9}', 'f_colon': '{(lambda q: q + 1)(a)}', 'f_global': '{GV}'}
-VALUE = {'f_neq': 'False', 'f_colon': '10', 'f_global': 'from-the-module', 'f_local': 'bob', 'f_attr': 'alice', 'f_index': '2', 'f_call': '3', 'f_percent': "LIKE 'a%s' %d", 'f_zero': '0',
+        'f_neq': '{a != 9}', 'f_colon': '{(lambda q: q + 1)(a)}', 'f_global': '{GV}',
+        'f_braces': '{len({a, a + 1})}', 'f_badconv': '{a!x}'}
+VALUE = {'f_braces': '2', 'f_neq': 'False', 'f_colon': '10', 'f_global': 'from-the-module', 'f_local': 'bob', 'f_attr': 'alice', 'f_index': '2', 'f_call': '3', 'f_percent': "LIKE 'a%s' %d", 'f_zero': '0',
          'f_empty': ''}
-ERR_HINT = {'f_missing': 'nope', 'f_raises': 'zero'}
+ERR_HINT = {'f_missing': 'nope', 'f_raises': 'zero', 'f_badconv': 'syntax'}
 EXPR = {k: v[1:-1] for k, v in TEXT.items() if k.startswith('f_')}
 UUID = re.compile(r'^[0-9a-f]{8}-[0-9a-f]{4}-[0-9a-f]{4}-[0-9a-f]{4}-[0-9a-f]{12}$')
 
